@@ -50,7 +50,14 @@ META = {
                    'after a failed INSERT, for every exception class) and get — for every class tree, every level, every '
                    'connection and all tables (C15_translated_*_level: one level, the neighbouring level being the model\'s '
                    'function; C15_translated_*_eq_model: the translated method calling itself along the class chain, by '
-                   'induction over the depth).'),
+                   'induction over the depth).  The SELECT side: InheritableSelectResults.__init__, translated on this run, is '
+                   'proved (C15_translated_selectInit_eq_algo: any forest, any clause, any allClasses() order) to hand '
+                   'SelectResults.__init__ the clause AND-ed with the joins a pure function computes, and, for filters over own '
+                   'and inherited columns, to build a query whose rows (SQL semantics over the model\'s per-level tables) are '
+                   'exactly the model\'s selectRow / selectByRow ids, one row per id (C15_translated_selectInit_eq_model, '
+                   '_selectBy_eq_model; with no orphans: exactly the rows of the class\'s own table that satisfy the filter, '
+                   'C15_translated_child_select_own_kind); C15_translated_fetch_most_derived restates the fetch theorem about '
+                   'the translated get.'),
     'level_note': ('Trusted: Lean kernel; the extractor vlib/extractors/inherit.py; SQLite (joins, integer comparison, '
                    'AUTOINCREMENT id allocation: modelled, cross-checked by execution); the instance cache and the '
                    'per-level cached column values are taken as coherent with the rows (properties C04/C05; exercised '
@@ -87,9 +94,11 @@ META = {
                     'get attaches it); a table without childName column holds no tag; the keywords of _create come in '
                     'declaration order (a dict is used through lookups only); select / selectBy return exactly the ids the '
                     'model selects (any order); InheritableSQLMeta.addColumn (getter/setter delegation closures built with '
-                    'eval / nested functions), InheritableSQLObject.select / selectBy (clause building) and '
+                    'eval / nested functions), InheritableSQLObject.select (clause patching with nested functions) and '
                     'InheritableIteration (child prefetch) are NOT translated: they stay hand-modelled and tied by the '
-                    'differential correspondence',
+                    'differential correspondence; InheritableSQLObject.selectBy IS translated (Extracted/PyInhSel.lean, '
+                    'selectByProg) and run on closed witnesses in Props/C15.lean (through the translated constructor), but not '
+                    'yet proved equal to the hand model for all inputs',
                     'translated InheritableSelectResults.__init__ (C15_translated_selectInit_*): interface in the header of '
                     'Model/InhSelX.lean (tablesUsedSet = the tables of the clause, allClasses() = every class once in any order, '
                     'distinct classes have distinct table names, SelectResults.__init__ selects FROM the tables of the clause '
